@@ -134,7 +134,7 @@ def edited_generic(rep, args, d, which, ops, maxp, maxs):
         napp += tr.distinct - na
     if not args.replay and napp < 50:
         raise tlc.MachineryError("vacuous run: only %d edited graphs on which the view contract applies" % napp)
-    rep.coverage["edited_graphs" if which == "views" else "edited_graphs_tables"] = {"module": "Edit.tla (enumeration) + EditViews.tla (contract)", "seed_states": len(seeds), "histories_enumerated_by_tlc": r.distinct,
+    rep.coverage["edited_graphs" if which == "views" else "edited_graphs_" + which] = {"module": "Edit.tla (enumeration) + EditViews.tla (contract)", "seed_states": len(seeds), "histories_enumerated_by_tlc": r.distinct,
                                      "replayed_on_real_objects": len(cases), "contract_applies": napp,
                                      "what": "edit primitives (%s) with every level, ordered P (<=%s), S (<=%s) applied to restructured / hand-made seed graphs; "
                                              "observations recorded from the real result" % (ops, maxp, maxs)}
